@@ -746,7 +746,7 @@ class Session:
             whole = st.get("all", True)
             resp = self._hcall(h, {"op": "w_write", "data": spec, "all": whole})
         info = self.handles[h][2]
-        sop = {"op": "w_write", "h": h, "len": len(data)}
+        sop = {"op": "w_write", "h": h, "len": len(data), "all": bool(whole)}
         if resp.get("ok"):
             n = int(resp["val"])
             info["fed"] += data[:n]
